@@ -183,6 +183,28 @@ func runProfile(p *Prof, vias int, perms bool) *wkpool.CaseResult {
 	return c.res
 }
 
+func hasLoc(ps []*Prof, loc int) bool {
+	for _, p := range ps {
+		for _, s := range p.Samples {
+			for _, l := range s.Stack {
+				if l == loc {
+					return true
+				}
+			}
+		}
+	}
+	return false
+}
+
+func anyEmptyStack(ps []*Prof) bool {
+	for _, p := range ps {
+		if p.hasEmptyStack() {
+			return true
+		}
+	}
+	return false
+}
+
 func revPerm(n int) []int {
 	out := make([]int, n)
 	for i := range out {
@@ -302,6 +324,35 @@ func runMerge(profs []*Prof, cache bool) *wkpool.CaseResult {
 			c.checkFlame(fl, want, j, noLines, fmt.Sprintf("MergeTrie concatenated %s, row order %d", typ, oi))
 		}
 	}
+	// auxiliary observation (never a violation): the pprof payload merge of the same inputs
+	sums, fail := payloadMerge(sts)
+	switch {
+	case strings.HasPrefix(fail, "panic"):
+		c.count("aux_payload_merge_panics")
+		c.count("aux_payload_merge_" + strings.ReplaceAll(fail, " ", "_"))
+		if hasLoc(profs, 3) {
+			c.count("aux_payload_merge_panics_with_location_without_lines")
+		}
+		if anyEmptyStack(profs) {
+			c.count("aux_payload_merge_panics_with_frameless_sample")
+		}
+	case fail != "":
+		c.count("aux_payload_merge_error")
+	default:
+		ok := len(sums) == 2
+		for j := 0; ok && j < 2; j++ {
+			var w int64
+			for _, p := range profs {
+				w += p.sampleSum(j)
+			}
+			ok = sums[j] == w
+		}
+		if ok {
+			c.count("aux_payload_merge_sum_equals_inputs")
+		} else {
+			c.count("aux_payload_merge_sum_differs_from_inputs")
+		}
+	}
 	c.res.Outcomes = append(c.res.Outcomes, fmt.Sprintf("merge:profiles=%d:merged_nodes=%d", len(profs), nodes))
 	if len(profs) == 3 && len(c.res.Viols) == 0 {
 		c.res.Sample = map[string]any{"merge_of": profs, "merged_nodes": nodes}
@@ -380,6 +431,11 @@ func main() {
 			ev.Fatal("replay: %v", err)
 		}
 		var res *wkpool.CaseResult
+		so := os.Stdout
+		if f, err := os.OpenFile(os.DevNull, os.O_WRONLY, 0); err == nil {
+			os.Stdout = f // the reader prints every SQL text it runs
+		}
+		defer func() { os.Stdout = so }()
 		switch doc.Replay.Kind {
 		case "profile":
 			res = runProfile(doc.Replay.Prof, doc.Replay.Vias, doc.Replay.Perms)
@@ -388,6 +444,7 @@ func main() {
 		default:
 			ev.Fatal("replay: unknown kind %q", doc.Replay.Kind)
 		}
+		os.Stdout = so
 		r.AddEval(1)
 		r.States, r.Transitions = 1, res.RealTraces
 		r.TracesValidated = res.RealTraces
